@@ -151,10 +151,12 @@ def make_source(rng, sc, zone, sign, zones=None, amax=9.0, limit_overlap=True):
             ra, dec = [float(v) for v in w.all_pix2world([[col, row]], 0)[0]]
             if not (math.isfinite(ra) and math.isfinite(dec)):
                 continue
+            if sc.get("f32"):       # a single-precision catalogue: the catalogued position IS the rounded one
+                ra, dec = float(np.float32(ra)), float(np.float32(dec))
             c2, r2 = [float(v) for v in w.all_world2pix([[ra, dec]], 0)[0]]
             if not (math.isfinite(c2) and math.isfinite(r2)):
                 continue
-            if abs(c2 - col) > 1e-6 or abs(r2 - row) > 1e-6:
+            if not sc.get("f32") and (abs(c2 - col) > 1e-6 or abs(r2 - row) > 1e-6):
                 continue
             row, col = r2, c2
             if not (_clear_of_boundaries(row, H) and _clear_of_boundaries(col, W)):
@@ -169,10 +171,15 @@ def make_source(rng, sc, zone, sign, zones=None, amax=9.0, limit_overlap=True):
                     continue
                 sc["cov"][foot] += 1
         a = a_px * cd
-        return {"ra": ra, "dec": dec, "peak": peak, "a": a, "b": a * ratio, "pa": pa,
-                # mostly high signal to noise; sometimes below the default 4-sigma mask level
-                "rms": abs(peak) * (rng.uniform(0.002, 0.05) if rng.random() < 0.8 else rng.uniform(0.3, 1.2)), "zone": zone,
-                "row": row, "col": col, "sign": 1 if peak > 0 else -1}
+        out = {"ra": ra, "dec": dec, "peak": peak, "a": a, "b": a * ratio, "pa": pa,
+               # mostly high signal to noise; sometimes below the default 4-sigma mask level
+               "rms": abs(peak) * (rng.uniform(0.002, 0.05) if rng.random() < 0.8 else rng.uniform(0.3, 1.2)), "zone": zone,
+               "row": row, "col": col, "sign": 1 if peak > 0 else -1}
+        if sc.get("f32"):
+            for k in ("ra", "dec", "peak", "a", "b", "pa", "rms"):
+                out[k] = float(np.float32(out[k]))
+            out["f32"] = True
+        return out
     return None
 
 
@@ -203,6 +210,9 @@ def write_cat(path, srcs, renaming, rng):
     cols['local_rms'] = [float(s["rms"]) for s in srcs]
     if path.endswith(".vot"):
         return write_votable(path, cols)
+    if srcs and srcs[0].get("f32") and path.endswith(".fits"):
+        # the FITS binary tables the package itself writes hold single-precision columns
+        cols = {k: (np.asarray(v, dtype=np.float32) if v and isinstance(v[0], float) else v) for k, v in cols.items()}
     t = Table(cols)
     if path.endswith(".csv"):
         t.write(path, format='ascii.csv', overwrite=True)
@@ -481,11 +491,12 @@ def obs_run(task):
     sc = scene(rng, proj, 40 if masky else 48, 80 if masky else 112,
                rotate=(not lattice) and rng.random() < 0.3)
     H, W = sc["H"], sc["W"]
+    fmt = rng.choice([".fits", ".csv", ".vot"])
+    sc["f32"] = (fmt == ".fits" and not lattice and rng.random() < 0.6)
     srcs = _catalogue(rng, sc, shape, zmap, amax=6.0 if masky else 9.0)
     if not srcs:
         return None
     variant = "f32" if lattice else rng.choice(["f32", "f32", "f64", "4d"])
-    fmt = rng.choice([".fits", ".csv", ".vot"])
     pk = max(abs(s["peak"]) for s in srcs)
     nrng = np.random.default_rng(seed)
     yy, xx = np.mgrid[0:H, 0:W]
